@@ -463,6 +463,9 @@ func c01LaneA(c *Ctx, root *Rng, n int) []*c01Case {
 		cj := &c01Case{Lane: "A-content", Label: "corpus+jsonmode:" + nm, Files: map[string]string{"c.lua": corpus[nm], "luahelper.json": "{}"}}
 		cj.Steps = c01Sweep(r, "c.lua", corpus[nm], 60, c01PosMethods)
 		cases = append(cases, cj)
+		co := &c01Case{Lane: "A-content", Label: "corpus+jsonmode-all-open:" + nm, Files: map[string]string{"c.lua": corpus[nm], "luahelper.json": c01JSONAllOpen}}
+		co.Steps = c01Sweep(r, "c.lua", corpus[nm], 20, c01PosMethods)
+		cases = append(cases, co)
 	}
 	for i := 0; i < n; i++ {
 		r := root.Fork(uint64(i))
@@ -499,6 +502,16 @@ func c01LaneA(c *Ctx, root *Rng, n int) []*c01Case {
 		files := map[string]string{"m.lua": txt}
 		// a second clean file so that cross-file passes run
 		files["other.lua"] = "GOther = { f = function(a, b) return a end }\nreturn GOther\n"
+		// a third of the cases run in config-file mode, half of those with every optional check switched on
+		// (OpenErrorTypes): several analyses only run there
+		switch r.Intn(6) {
+		case 0:
+			files["luahelper.json"] = "{}"
+			label += "+jsonmode"
+		case 1:
+			files["luahelper.json"] = c01JSONAllOpen
+			label += "+jsonmode-all-open"
+		}
 		cs := &c01Case{Lane: "A-content", Label: label, Files: files}
 		// on the wire text must be valid UTF-8; the file on disk keeps the raw bytes
 		wire := strings.ToValidUTF8(txt, "�")
@@ -517,6 +530,9 @@ func c01LaneA(c *Ctx, root *Rng, n int) []*c01Case {
 
 // ---------------------------------------------------------------------------------------------
 // lane B: annotations
+
+// every optional (off by default) check switched on
+const c01JSONAllOpen = `{"ShowWarnFlag":1,"OpenErrorTypes":[1,2,3,4,5,6,7,8,9,10,11,12,13,14,15,16,17,18,19,20,21,22,23,24,25,26,27,28,29,30]}`
 
 var c01AnnoKeywords = []string{"fun", "table", "type", "param", "field", "class", "return", "overload", "alias", "generic", "public", "protected", "private", "vararg", "const", "enum"}
 
@@ -587,6 +603,8 @@ func c01AnnoFile(r *Rng) (string, string) {
 	}
 	if r.Chance(1, 3) {
 		sb.WriteString("---@param a Cls0\n---@param b AliasA\n---@return Cls1, AliasB\n---@overload fun(a:number):Cls0\n---@generic T : Cls0\n---@vararg string\nfunction GF(a, b, ...)\n  return a.f0_0, b\nend\nlocal r1, r2 = GF(v0, v1)\nprint(r1.f1_0, r2[1])\n")
+		// calls with fewer and with more arguments than named parameters, a vararg function with annotated parameters
+		sb.WriteString("print(GF(v0), GF(v0, v1, 1, \"x\"), GF())\n---@param fmt string\nlocal function logf(fmt, ...)\n  return fmt\nend\nlogf(\"x\")\nlogf(\"x %d\", 1, v0)\nlogf(1, 2)\n")
 		label += "+func-annos"
 	}
 	if r.Chance(1, 3) {
@@ -650,6 +668,10 @@ func c01LaneB(c *Ctx, root *Rng, n int) []*c01Case {
 			// config-file mode enables the enum check (type 29) and other gated analyses
 			files["luahelper.json"] = "{}"
 			cs.Label += "+jsonmode"
+			if r.Bool() {
+				files["luahelper.json"] = c01JSONAllOpen
+				cs.Label += "-all-open"
+			}
 		}
 		wire := strings.ToValidUTF8(txt, "�")
 		cs.Steps = c01Sweep(r, "anno.lua", wire, 250, []string{"textDocument/definition", "textDocument/hover", "textDocument/completion", "textDocument/signatureHelp", "textDocument/references"})
